@@ -72,3 +72,32 @@ pub mod token_ring {
         }
     }
 }
+
+/// Views of the private state of the FDL active station (for the `fdl` correspondence domain).
+pub mod fdl {
+    /// Canonical text of the private fields of an [`FdlActiveStation`][`crate::fdl::FdlActiveStation`]
+    /// from `gap_state` onwards (`gap_state`, `state`, `last_bus_activity`, `pending_bytes`,
+    /// `last_token_time`, `end_token_hold_time`, `next_application`): the derived `Debug` rendering
+    /// with all whitespace removed.
+    pub fn fingerprint(fdl: &crate::fdl::FdlActiveStation) -> String {
+        let s: String = format!("{:?}", fdl)
+            .chars()
+            .filter(|c| !c.is_whitespace())
+            .collect();
+        let start = s.find("gap_state:").unwrap_or(0);
+        let end = s.len().saturating_sub(1);
+        s[start..end].to_string()
+    }
+
+    /// Name of the private LAS state of the station's token ring (`Uninitialized`, `Discovery`,
+    /// `Verification` or `Valid`), taken from the `Debug` rendering of the ring.
+    pub fn las_state_name(fdl: &crate::fdl::FdlActiveStation) -> &'static str {
+        let s = format!("{:?}", fdl.inspect_token_ring());
+        for n in ["Uninitialized", "Discovery", "Verification", "Valid"] {
+            if s.contains(&format!("las_state: {n}")) {
+                return n;
+            }
+        }
+        "?"
+    }
+}
